@@ -75,6 +75,11 @@ def gen_case(rng: random.Random, tier):
     for i, inst in enumerate(insts):
         if ops_cfg[i]['type'] == 'relative_address':
             parts.append(inst(rng, addr=addr))
+        elif ops_cfg[i]['type'] in ('numeric', 'indirect_numeric', 'deferred_numeric') and rng.random() < 0.08 \
+                and not ops_cfg[i]['argument'].get('valid_address'):
+            # a value just outside the field: must be rejected, never truncated into the neighbouring fields
+            mn, mx = gen.fits_range(ops_cfg[i]['argument']['size'])
+            parts.append(inst(rng, value=rng.choice([mx + 1, mn - 1])))
         else:
             parts.append(inst(rng))
     little_op = bytecode.get('endian', ctx.default_endian) == 'little'
